@@ -8,6 +8,12 @@
  * of the static array so that they have names).
  * ops: (1, q*10000000 + n*1000 + v) push node n carrying data v as producer q
  *      (2, _) trypop
+ *      (3, q*10000000 + v) take the node most recently handed back by the
+ *             consumer and push it as producer q carrying data v (one explicit
+ *             scheduling point, then the decision; returns 0 without pushing
+ *             if no node is free)
+ * Every node returned by trypop is handed back through one free stack in plain
+ * (unregistered) harness memory; a recycled node keeps its stale next pointer.
  * The write of node->data before a push and the read of the returned node's
  * data after a pop are harness accesses to registered memory: they are
  * scheduling points and trace lines like any other access. */
@@ -19,6 +25,8 @@ static spsc_node_t nodes[NN];
 static mpscr_fifo_t* f;
 static hcase_t* cur;
 static volatile long sink;
+static spsc_node_t* freestk[NN + 64 * RT_MAX_THREADS];
+static int nfree;
 
 static void body(int t) {
   for (int k = 0; k < cur->nops[t]; k++) {
@@ -29,10 +37,22 @@ static void body(int t) {
       nd->data = (void*)(uintptr_t)v;
       mpscr_fifo_push(f, (size_t)q, nd);
       rt_event(k + 1, K_RET, n);
+    } else if (opc == 3) {
+      long q = a / 10000000, v = a % 1000;
+      rt_point(0, K_RELAX, 0);
+      if (nfree == 0) {
+        rt_event(k + 1, K_RET, 0);
+      } else {
+        spsc_node_t* nd = freestk[--nfree];
+        nd->data = (void*)(uintptr_t)v;
+        mpscr_fifo_push(f, (size_t)q, nd);
+        rt_event(k + 1, K_RET, rt_canon((uint64_t)(uintptr_t)nd));
+      }
     } else {
       spsc_node_t* r = mpscr_fifo_trypop(f);
       if (r) {
         sink = (long)(uintptr_t)r->data; /* the consumer uses the item */
+        freestk[nfree++] = r;
         rt_event(k + 1, K_RET, rt_canon((uint64_t)(uintptr_t)r));
       } else {
         rt_event(k + 1, K_RET, 0);
@@ -48,12 +68,14 @@ static void h_run_case(hcase_t* c) {
   if (np < 1 || np > 16) { printf("-1\n"); return; }
   for (int t = 0; t < c->nthreads; t++)
     for (int k = 0; k < c->nops[t]; k++)
-      if (c->ops[t][k][0] == 1) {
+      if (c->ops[t][k][0] == 1 || c->ops[t][k][0] == 3) {
         long a = c->ops[t][k][1];
         long q = a / 10000000, n = (a / 1000) % 10000;
+        if (c->ops[t][k][0] == 3) n = 1;
         if (n < 1 || n > NN || q < 0 || q >= np) { printf("-1\n"); return; }
       }
   memset(nodes, 0, sizeof nodes);
+  nfree = 0;
   f = mpscr_fifo_create((size_t)np);
   for (long q = 0; q < np; q++) {
     free(f->fifos[q].tail);
